@@ -46,7 +46,7 @@ def instances(tier, seed):
     trees = T + (T_TH if th else [])
     for el in ("TwoPointLinearSpring", "TwoPointLinearDamper", "TwoPointConstantForce"):
         for i, att in enumerate(["12", "02", "21", "22"] if th else ["12", "20"]):
-            for t in (trees if th else [trees[i], trees[i + 2]]):
+            for t in ([trees[(i + j) % len(trees)] for j in (0, 3, 5)] if th else [trees[i], trees[i + 2]]):
                 if int(max(att)) <= t.count(",") + 1:
                     out.append(_inst(el, t, att))
     for el in ("ConstantForce", "ConstantTorque"):
@@ -66,7 +66,7 @@ def instances(tier, seed):
     if th:
         lb += [("Free:0,Pin:1", "21"), ("Planar:0,Universal:1/1,Pin:1", "23"), ("Gimbal:0,Pin:1/1", "11")]
     for t, att in lb:
-        out.append(_inst("LinearBushing", t, att, bushing=True))
+        out.append(_inst("LinearBushing", t, att, bushing=True, base_points=2, free_coord=False))
     return out
 
 
